@@ -201,6 +201,9 @@ func TestC19_PointerShapes(t *testing.T) {
 			c19dec.one(t, obs.Hex(back))
 		}
 	}
+	for _, b := range pointerOffsetBuffers() {
+		c19dec.one(t, obs.Hex(b))
+	}
 	c19dec.rec.Class("pointer rings and chains")
 }
 
